@@ -33,7 +33,7 @@ class Parse(tops.Component):
 
 def main(tier, replay):
     return tops.run("C16", [Norm(), Parse()], tier,
-                    level_text="proof for the normalisation half: theorems for all int values about the buffer-capacity switches and determineEventLoops REGENERATED from gnet.go/client_unix.go, and about the chunk normalisation (Props/C16.lean). Partial for parsing: gnet's own dispatch on the result of net/url.Parse and path.Join is modelled and proved total and exact; net/url and path themselves are inputs (modelled, not verified). Tie: regeneration + differential run; for parsing the real parseProtoAddr is compared with the dispatch model fed with url.Parse's actual result, and an oracle demands the endpoint exactly as written for grammar-generated addresses and the documented errors",
+                    level_text="proof for the normalisation half: theorems for all int values about the buffer-capacity switches and determineEventLoops REGENERATED from gnet.go/client_unix.go, and about the chunk normalisation (Props/C16.lean). Parsing: an executable Lean model of Go 1.23 net/url.Parse (scheme, authority, host, port, zone and %-escape handling, query/fragment/opaque forms, control bytes) and of path.Join/path.Clean composed with gnet's dispatch (Model/Url.lean); theorems: parse_ip_exact (host:port exactly as written for names, dotted IPv4, bracketed IPv6 with and without zone: the %25 escaping and the zone unescaping cancel), parse_unix_exact / parse_unix_clean, parse_total (success always names one of the seven schemes and a non-empty endpoint), parse_unknown_scheme, parse_no_scheme, parse_no_scheme_name. Tie: on every generated and fuzzed address the model of url.Parse must agree with Go's on error-or-not, scheme, host, path, the joined path and the final result, and the property oracle demands the endpoint exactly as written for grammar-generated addresses",
                     assumptions=["net/url.Parse and path.Join are trusted (their results are inputs of the model)", "translator gotolean"],
                     replay=replay,
-                    partial_note="address parsing: only gnet's dispatch is proved; 'never panics for every string' rests on net/url (fuzzed by the malformed stream, not proved)")
+                    partial_note="net/url and path are modelled (validated by the correspondence on grammar-generated and fuzzed addresses), not verified; 'never panics' holds for the total model and is fuzzed on the implementation")
